@@ -98,7 +98,7 @@ public:
   {
     switch (f)
     {
-    case python_format:  return "not(%%1%%)";
+    case python_format:  return "(not %%1%%)";
     default:             return   "!%%1%%";
     }
   }
